@@ -55,6 +55,7 @@ Clauses(r) ==
             <<"MarginalQuantile", \A i \in 1..Len(r.d0) : DKW(r.d0[i], r.n0)>>,
             <<"ConditionalQuantile", \A i \in 1..Len(r.d1) : DKW(r.d1[i], r.n1[i])>>,
             <<"Reproducible", r.repro>>,
+            <<"ReproducibleAfterSampleCache", r.reproaftercache>>,
             <<"SeedMatters", r.seedmatters>> >>
 
 SupportConformant(r) == r.hooked /\ r.k >= 0 /\ (r.atfloor \/ r.fstop) /\ (r.k = 0 \/ r.fprev)
